@@ -1,6 +1,7 @@
 import SfVerif.Lemmas.Hdr
 import SfVerif.Model.Ctx
 import SfVerif.Lemmas.Codes
+import SfVerif.Lemmas.Ctx5
 /-! C08 — arbitrary input bytes never yield a wrong value, a crash or a stray string. -/
 namespace SfVerif.Props.C08
 open SfVerif SfVerif.Gen
@@ -43,5 +44,78 @@ theorem C08_unsupported_markers (b : Bytes) (p : Nat) :
     hdrTagged b p 0xc9 = none ∧ hdrTagged b p 0xd4 = none ∧ hdrTagged b p 0xd5 = none ∧
     hdrTagged b p 0xd6 = none ∧ hdrTagged b p 0xd7 = none ∧ hdrTagged b p 0xd8 = none := by
   simp [hdrTagged]
+
+/-! ### every byte string × every history -/
+
+/-- **arbitrary bytes, every history**: for ANY byte string supplied as input — truncated,
+    corrupted, random — and any finite sequence of read calls on handles the client was given, the
+    answers are exactly `Spec.run`: computed from the bytes by the sequential header walk
+    (`specPath`, `specPair`, `specProp`), which answers `ReadError` wherever that walk cannot
+    decode. No hypothesis on the input. -/
+theorem C08_every_history_arbitrary_bytes (c0 : Ctx) (b : Bytes) (ops : List ROp)
+    (hresp : Spec.respects b 0 [] ops) :
+    ((c0.reinit b).rrun ops).1 = Spec.run b 0 ops := by
+  have h1 : CInv (c0.reinit b) := by intro k r hk; simp [Ctx.reinit, Ctx.fresh] at hk
+  exact (rrun_ok ops (c0.reinit b) [] h1 (by intro h hh; cases hh) hresp).1
+
+/-- **never a fabricated value**: whatever the specification (hence the provider) answers for a
+    position is either the read-error value or the boxed header the sequential decoder reads at
+    that position — for every byte string -/
+theorem C08_value_or_error (b : Bytes) (root : Nat) (path : Path) :
+    Spec.valueAt b root path = .err ErrorCode_ReadError ∨
+    ∃ p hd, specPath b 0 path = some p ∧ readHdr b p = some hd ∧
+      Spec.valueAt b root path = Ctx.encodeNode { root := root, path := path } (mkNode hd) := by
+  cases hp : specPath b 0 path with
+  | none => left; simp only [Spec.valueAt, hp]
+  | some p =>
+    cases hh : readHdr b p with
+    | none => left; simp only [Spec.valueAt, hp, hh]
+    | some hd => right; exact ⟨p, hd, rfl, hh, by simp only [Spec.valueAt, hp, hh]⟩
+
+/-- **every string the provider reports lies entirely inside the input**: in any context with
+    correct roots (every reachable one), a valid handle that denotes a string — a value or a
+    key — has offset + length within the input bytes; this is the extent `read_utf8_str` copies -/
+theorem C08_strings_inside_input (c : Ctx) (hc : CInv c) (h : Handle) (off len : Nat)
+    (hm : c.nodeAt? h = some (.scalar (.str off len))) :
+    off + len ≤ c.input.size ∧ c.strOffset h = some off ∧ c.getValLen (.node h) = some len := by
+  obtain ⟨pos, hd, _, hh, hinv, _, _⟩ := nodeAt_spec hc hm
+  cases hinv with
+  | scalar hh' =>
+    exact ⟨(readHdr_str_inside hh').1, by simp [Ctx.strOffset, hm], by simp [Ctx.getValLen, hm, Node.valueLength]⟩
+
+/-- **repeating a call gives the same answer**, on any input: the second call runs in the context
+    the first one left behind (more of the tree parsed), and still answers the same -/
+theorem C08_repeat_same_answer (c : Ctx) (hc : CInv c) (h : Handle) (m : Node) (hm : c.nodeAt? h = some m)
+    (i : Nat) (q : Bytes) :
+    ((c.getAtIndex (.node h) i).1.getAtIndex (.node h) i).2 = (c.getAtIndex (.node h) i).2 ∧
+    ((c.getKeyAtIndex (.node h) i).1.getKeyAtIndex (.node h) i).2 = (c.getKeyAtIndex (.node h) i).2 ∧
+    ((c.getObjProp (.node h) q).1.getObjProp (.node h) q).2 = (c.getObjProp (.node h) q).2 := by
+  refine ⟨?_, ?_, ?_⟩
+  · obtain ⟨h1, h2⟩ := getAtIndex_node_ok hc hm i
+    obtain ⟨m', hm', _⟩ := h2.kept h m hm
+    rw [(getAtIndex_node_ok h2.inv hm' i).1, h2.input, h1]
+  · obtain ⟨h1, h2⟩ := getKeyAtIndex_node_ok hc hm i
+    obtain ⟨m', hm', _⟩ := h2.kept h m hm
+    rw [(getKeyAtIndex_node_ok h2.inv hm' i).1, h2.input, h1]
+  · obtain ⟨h1, h2⟩ := getObjProp_node_ok hc hm q
+    obtain ⟨m', hm', _⟩ := h2.kept h m hm
+    rw [(getObjProp_node_ok h2.inv hm' q).1, h2.input, h1]
+
+/-- an error leaves every root a correct partial view and every handle valid: a failed call
+    costs nothing but the answer -/
+theorem C08_errors_keep_state_sound (c : Ctx) (hc : CInv c) (h : Handle) (m : Node) (hm : c.nodeAt? h = some m)
+    (i : Nat) (q : Bytes) :
+    ReadStepOK c (c.getAtIndex (.node h) i).1 (c.getAtIndex (.node h) i).2 ∧
+    ReadStepOK c (c.getKeyAtIndex (.node h) i).1 (c.getKeyAtIndex (.node h) i).2 ∧
+    ReadStepOK c (c.getObjProp (.node h) q).1 (c.getObjProp (.node h) q).2 :=
+  ⟨(getAtIndex_node_ok hc hm i).2, (getKeyAtIndex_node_ok hc hm i).2, (getObjProp_node_ok hc hm q).2⟩
+
+/-- non-vacuity: a corrupted document `[1, 0xc1]` (reserved marker): the root and element 0
+    are answered, element 1 is a read error — by the specification, hence by the provider -/
+example : Spec.run #[0x92, 1, 0xc1] 0 [.root, .atIndex ⟨0, []⟩ 0, .atIndex ⟨0, []⟩ 1] =
+    [.val (.arr ⟨0, []⟩ 2), .val (.num (F64.ofNat 1)), .val (.err ErrorCode_ReadError)] := by
+  simp [Spec.run, Spec.answer, Spec.valueAt, Spec.getAtIndex, Spec.hdrAt, specPath, specChild, eagerFuel, skip, skipN,
+    readHdr, hdrOfMarker, hdrFix, hdrTagged, arrHdr, mkNode, Ctx.encodeNode, ROp.nextRoots]
+  decide
 
 end SfVerif.Props.C08
